@@ -16,7 +16,7 @@ import vlib as V
 
 TAILS = [1e-6, 1e-5, 1e-4, 1e-3, 0.01, 0.05]
 QUADRATURE_FAMS = {'nig'}
-VERSION = 9  # bump to invalidate cached probe tables
+VERSION = 11  # bump to invalidate cached probe tables
 
 
 def _round_ty(x, ty):
@@ -67,7 +67,8 @@ def build_probe(case, tier):
         F = np.asarray(law.cdf(t), dtype=np.float64)
         SF = np.asarray(law.sf(t), dtype=np.float64)
         big = hasattr(law, 'big') and law.big
-        eps = (2e-9 if big else 1e-12) + 1e-9 * np.minimum(F, SF) + 4 * u_in
+        loose = bool(getattr(law, 'loose', False) or getattr(getattr(law, 'y', None), 'loose', False))
+        eps = (1e-6 if loose else 2e-9 if big else 1e-12) + 1e-9 * np.minimum(F, SF) + 4 * u_in
         enc = [C.encu(int(k)) for k in t] if ty == 'u64' else [C.encf(float(k)) for k in t]
     else:
         qs = sorted(set(TAILS + [i / B for i in range(1, B)] + [1 - q for q in TAILS]))
